@@ -198,7 +198,7 @@ Theorem sem_subquery s e n rt cs lim o sq :
   sem s e (Q n rt cs lim o (Some sq)) = nested s e n (level s e rt cs lim) sq.
 Proof.
   cbn [sem]. unfold nested. apply flat_map_ext. intros it.
-  destruct (sem s ((n, it) :: e) sq) eqn:E; cbn [is_nil map].
+  destruct (sem s (e ++ [(n, it)]) sq) eqn:E; cbn [is_nil map].
   - rewrite andb_true_r. destruct (q_opt sq); reflexivity.
   - rewrite andb_false_r. reflexivity.
 Qed.
@@ -222,18 +222,18 @@ Qed.
 Theorem sem_subquery_rows s e n rt cs lim o sq it r :
   In (it :: r) (sem s e (Q n rt cs lim o (Some sq))) <->
   In it (level s e rt cs lim)
-  /\ (In r (sem s ((n, it) :: e) sq)
-      \/ (r = [] /\ q_opt sq = true /\ sem s ((n, it) :: e) sq = [])).
+  /\ (In r (sem s (e ++ [(n, it)]) sq)
+      \/ (r = [] /\ q_opt sq = true /\ sem s (e ++ [(n, it)]) sq = [])).
 Proof.
   cbn [sem]. rewrite in_flat_map. split.
-  - intros (x & Hx & Hin). destruct (sem s ((n, x) :: e) sq) as [|r0 rs] eqn:E; cbn [is_nil] in Hin.
+  - intros (x & Hx & Hin). destruct (sem s (e ++ [(n, x)]) sq) as [|r0 rs] eqn:E; cbn [is_nil] in Hin.
     + rewrite andb_true_r in Hin. destruct (q_opt sq) eqn:Eo; cbn in Hin; [|contradiction].
       destruct Hin as [H|[]]. inversion H; subst. split; [exact Hx|]. right. rewrite E. auto.
     + rewrite andb_false_r in Hin. apply in_map_iff in Hin. destruct Hin as (r' & H & Hr').
       inversion H; subst. split; [exact Hx|]. left. rewrite E. exact Hr'.
   - intros [Hit [Hr|(-> & Ho & He)]].
     + exists it. split; [exact Hit|].
-      destruct (sem s ((n, it) :: e) sq) as [|r0 rs] eqn:E; [contradiction|].
+      destruct (sem s (e ++ [(n, it)]) sq) as [|r0 rs] eqn:E; [contradiction|].
       cbn [is_nil]. rewrite andb_false_r. apply in_map, Hr.
     + exists it. split; [exact Hit|]. rewrite He, Ho. cbn. left. reflexivity.
 Qed.
